@@ -155,7 +155,6 @@ Theorem receive_headers_ncr cfg hs es : ncrS (receive_headers cfg hs es).
 Proof.
   intros s s' r H. unfold receive_headers in H.
   set (info := is_informational_response (plain hs)) in *.
-  destruct (info && es) eqn:Eie; [unfold lift_res in H; injection H as _ <-; apply perr_ncr|].
   unfold bind at 1 in H. destruct (fsm (if info then SI_RECV_INFORMATIONAL_HEADERS else SI_RECV_HEADERS) s) as [s1 r1] eqn:Ef.
   pose proof (fsm_ncr (if info then SI_RECV_INFORMATIONAL_HEADERS else SI_RECV_HEADERS) s) as N1. rewrite Ef in N1. cbn [snd] in N1.
   destruct r1 as [evs|e c i b|p]; [|injection H as _ <-; auto | exfalso; exact (N1 p eq_refl)].
@@ -166,6 +165,9 @@ Proof.
     - destruct (recv_info_events _ _ _ _ Hp1) as (rest & ->). eexists; eexists; split; [reflexivity|]. tauto.
     - destruct (recv_headers_events _ _ _ _ Hp1) as (e0 & rest & -> & Hk). exists e0, rest. split; [reflexivity|]. tauto. }
   destruct Hev as (e0 & rest & -> & Hk).
+  unfold bind at 1 in H.
+  destruct (info && es) eqn:Eie; [unfold lift_res at 1 in H; cbv beta iota in H; injection H as _ <-; apply perr_ncr|].
+  unfold ret at 1 in H. cbv beta iota in H.
   unfold bind at 1 in H.
   match type of H with (match ?X with (_, _) => _ end) = _ => destruct X as [s2 r2] eqn:E2 end.
   assert (N2 : ncr r2).
